@@ -55,10 +55,13 @@ type Parser struct {
 	src       io.Reader
 	dest      *bytes.Buffer
 	variables map[string]string
-	Flags     map[rune]bool
-	Prefixes  []string
-	Suffixes  []string
-	patterns  map[string]*regexp.Regexp
+	// definitions handed down by the file on whose behalf this file is parsed (the include file of an
+	// include-except directive for its exclude files); they apply to the names this file does not define
+	inheritedVariables map[string]string
+	Flags              map[rune]bool
+	Prefixes           []string
+	Suffixes           []string
+	patterns           map[string]*regexp.Regexp
 }
 
 // ParsedLine will store the results of parsing the line. `parsedType` will discriminate how you read the results:
@@ -178,6 +181,12 @@ func (p *Parser) Parse(formatOnly bool) (*bytes.Buffer, int) {
 		wrote += n
 	}
 
+	// a name this file defines means what this file says, inherited definitions supply the rest
+	for name, value := range p.inheritedVariables {
+		if _, defined := p.variables[name]; !defined {
+			p.variables[name] = value
+		}
+	}
 	// now that the file was parsed, we replace all definitions
 	if len(p.variables) > 0 {
 		p.dest = expandDefinitions(p.dest, p.variables)
@@ -291,7 +300,7 @@ func parseFile(rootParser *Parser, filename string, definitions map[string]strin
 	}
 	newP := NewParser(rootParser.ctx, bufio.NewReader(readFile))
 	if definitions != nil {
-		newP.variables = definitions
+		newP.inheritedVariables = definitions
 	}
 	out, _ := newP.Parse(false)
 	newOut, err := mergePrefixesSuffixes(rootParser, newP, out)
